@@ -14,11 +14,11 @@ from vf import pool_harness as H
 META = {
     'technique': 'Coq proof (inductive invariant over all completion orders) on a hand-written model of the keyspace switch + '
                  'exhaustive small-scope differential execution against the real Session/HostConnection/Connection code',
-    'level_text': 'C20_success_means_all, C20_any_error_reported, C20_always_completes proved for every list of pools/outcomes and every '
+    'level_text': 'C20_success_means_all, C20_any_error_reported, C20_always_completes, C20_new_pool_matches_session (pool creation racing with any number of switches) proved for every list of pools/outcomes and every '
                   'sequence of completion events over Model/Keyspace.v (repaired code); tied by correspondence after every event, '
                   'exhaustively for <= 3 pools x 6 outcomes x all completion orders.',
     'level_note': 'Trusted: Coq kernel; harness lib/vf/pool_ks.py. Not modelled: HostConnectionPool (v1/v2) variant; a _replace running '
-                  'concurrently with the switch (it reads pool._keyspace before installing its connection); USE quoting; add_or_renew_pool.',
+                  'concurrently with the switch (it reads pool._keyspace before installing its connection); USE quoting; the failure branch of add_or_renew_pool\'s catch-up (pool shut down, not registered).',
     'design_ref': 'DESIGN.md section 4 C20',
 }
 
@@ -82,6 +82,49 @@ def run(ctx):
         outs, order, obs = meta[i]
         ctx.disagreement('model-vs-impl.keyspace-switch', 'Model/Keyspace.v and the real code differ for outcomes %s completion order %s' % (outs, order),
                          case={'outcomes': outs, 'order': order}, actual=obs)
+    run_create(ctx, K)
+
+
+def run_create(ctx, K):
+    """pool creation (REAL Session.add_or_renew_pool body) racing with keyspace switches"""
+    short = [[]] + [[a] for a in (1, 2, 3)]
+    two = short + [[a, b] for a in (1, 2, 3) for b in (1, 2, 3) if a != b]
+    todo = []
+    for ks0 in (0, 1, 2):
+        for s0 in short[:3]:
+            for s1 in two:
+                for r1 in short:
+                    for r2 in (short if r1 else [[]]):
+                        todo.append((ks0, len(todo) % 3, s0, s1, [r for r in (r1, r2) if r]))
+    if ctx.tier == 'quick':
+        ctx.rng.shuffle(todo)
+        todo = todo[:500]
+    for _ in range(60 if ctx.tier == 'quick' else 600):
+        rnd = lambda n: [ctx.rng.randint(1, 3) for _ in range(ctx.rng.randint(0, n))]
+        todo.append((ctx.rng.randint(0, 3), ctx.rng.randint(0, 2), rnd(1), rnd(3), [rnd(2) for _ in range(ctx.rng.randint(0, 4))]))
+    todo.insert(0, (1, 1, [], [2], [[3]]))
+    cases, meta = [], []
+    for ks0, n0, s0, s1, rounds in todo:
+        case = {'create': True, 'ks0': ks0, 'registered_pools': n0, 'switches_before_read': s0, 'switches_after_read': s1, 'switches_per_catchup_round': rounds}
+        try:
+            r = K.CreateRun(ks0, n0, s0, s1, rounds).create()
+        except Exception as e:
+            ctx.violation('Session.add_or_renew_pool.exception', 'the driver raised %r for %s' % (e, case), case=case, theorem='C20_new_pool_matches_session', kind='history')
+            continue
+        ctx.case(['create', ks0, n0, s0, s1, rounds], nontrivial=bool(s1 or rounds), sample=dict(case, observed=r.observe()))
+        ctx.count('create_round_trips', r.round_trips)
+        for key, what, thm in r.oracle():
+            ctx.violation(key, what + ' (%s)' % json.dumps(case), case=case, expected='registered pool keyspace == session keyspace', actual=r.observe(), theorem=thm, kind='history')
+        cases.append('zl_eqb (%s) %s' % (K.create_coq(ks0, s0, s1, rounds), '[%s]' % '; '.join(H.zz(x) for x in r.observe())))
+        meta.append((case, r.observe()))
+    try:
+        bad = ctx.coq_filter(['Pool', 'Keyspace'], '(fun b : bool => b)', cases, shard=150)
+    except RuntimeError as e:
+        ctx.proof_broken.append(('correspondence:Keyspace.create_pool', str(e)[-600:]))
+        bad = []
+    for i in bad[:5]:
+        ctx.disagreement('model-vs-impl.add_or_renew_pool', 'Model/Keyspace.v create_pool and the real add_or_renew_pool differ for %s: impl %s' % meta[i],
+                         case=meta[i][0], actual=meta[i][1])
 
 
 def replay(ctx, rp):
@@ -89,6 +132,14 @@ def replay(ctx, rp):
     import_cluster()
     from vf import pool_ks as K
     case = rp.get('case') or {}
+    if case.get('create'):
+        r = K.CreateRun(case['ks0'], case['registered_pools'], case['switches_before_read'], case['switches_after_read'], case['switches_per_catchup_round']).create()
+        found = r.oracle()
+        print('pool creation %s -> %s' % (case, r.observe()))
+        for f in found:
+            print('  %s: %s' % (f[0], f[1]))
+        print(('VIOLATION property=C20 replay=%s' % ctx.replay_path) if found else 'not reproduced')
+        return 1 if found else 0
     if 'outcomes' not in case:
         print('nothing to replay: %s' % rp.get('theorem'))
         return 1
